@@ -93,6 +93,9 @@ MUTANTS = [  # (contract module, qualname, file, regex, replacement, expect)  ex
  ("contracts.c12", "PDAG.to_dag", "pgmpy/base/DAG.py", r"                    pdag.remove_node\(X\)\n", "", "break"),
  ("contracts.c15", "BayesianNetwork.get_cpds", "pgmpy/models/BayesianNetwork.py", r"                    if cpd.variable == node:\n                        return cpd", "                    if cpd.variable != node:\n                        return cpd", "break"),
  ("contracts.c15", "BayesianNetwork.get_cpds", "pgmpy/models/BayesianNetwork.py", r'            if node not in self.nodes\(\):\n                raise ValueError\("Node not present in the Directed Graph"\)', '            if False:\n                raise ValueError("Node not present in the Directed Graph")', "break"),
+ ("contracts.c15", "BayesianNetwork.add_cpds", "pgmpy/models/BayesianNetwork.py", r"                    self.cpds\[prev_cpd_index\] = cpd\n                    break", "                    self.cpds[prev_cpd_index] = cpd", "break"),
+ ("contracts.c15", "BayesianNetwork.add_cpds", "pgmpy/models/BayesianNetwork.py", r"self.cpds\[prev_cpd_index\] = cpd", "self.cpds[0] = cpd", "break"),
+ ("contracts.c15", "BayesianNetwork.add_cpds", "pgmpy/models/BayesianNetwork.py", r"            else:\n                self.cpds.append\(cpd\)\n\n    def get_cpds", "            self.cpds.append(cpd)\n\n    def get_cpds", "break"),
 ]
 
 
